@@ -101,6 +101,14 @@ Theorem C14_model_leaf_collection_is_a_set : forall icf o root leaves leaves' o'
   sub_ontology icf o root leaves = Ok o' -> sub_ontology icf o root leaves' = Ok o'.
 Proof. exact sub_ontology_same_members. Qed.
 
+(* ... and it is refused ONLY then: when every leaf is the root or one of its descendants (acyclic
+   ontology with exact caches) the retained set is computed *)
+Theorem C14_model_acceptance : forall o root leaves, qgood o -> acyclic (o_arena o) ->
+  (forall l, In l leaves -> In l (ar_keys (o_arena o))) ->
+  (forall l, In l leaves -> l = t_id root \/ anc (o_arena o) l (t_id root)) ->
+  exists ids, sub_ids o root leaves = Ok ids.
+Proof. exact sub_ids_accepts. Qed.
+
 Print Assumptions C14_retained_on_shortest_chain.
 Print Assumptions C14_result_closure_exact.
 Print Assumptions C14_model_retained_set.
@@ -111,3 +119,4 @@ Print Assumptions C14_model_annotations.
 Print Assumptions C14_model_leaf_distance_kept.
 Print Assumptions C14_model_contains_leaves_and_root.
 Print Assumptions C14_model_leaf_collection_is_a_set.
+Print Assumptions C14_model_acceptance.
